@@ -478,6 +478,10 @@ def run(p, report, tier):
         for o in sub.obligations:
             if o.rule == rid and pick(o):
                 report.add("R8.12", o.entity, o.construct, o.loc, o.ok, detail=o.detail)
+    report.rule("R8.14", "the wrapper treats index candidates and feature-row candidates alike: on both paths the wrapped "
+                "strategy is offered exactly the samples with an available annotator (shared with C07 R7.9)", floor=2)
+    from . import c07 as _c07
+    _c07.check_inner_candidates_available(p, report, "R8.14")
     report.rule("R8.13", "what enters the score of a candidate is computed from that candidate's own row or from the whole "
                 "pool, never from the SET of candidates: a reduction over all rows of a per-candidate matrix (no axis) is "
                 "not recombined with such a matrix, per-row reductions keep the reduced axis, and count statistics "
